@@ -85,6 +85,15 @@ theorem parse_ok_iff_std (chk : Bytes → Option Cause) (toks : List Token) :
     (parseTokens stdGrammar chk toks).isOk = true ↔ WellNested stdGrammar toks ∧ ObjsOk stdGrammar chk toks :=
   parse_ok_iff stdGrammar stdGrammar_ok chk toks
 
+/-- the same, for the table as extracted from `tags/standard_tags.go` by T1 -/
+theorem parse_ok_iff_generated (chk : Bytes → Option Cause) (toks : List Token) :
+    (parseTokens genGrammar chk toks).isOk = true ↔ WellNested genGrammar toks ∧ ObjsOk genGrammar chk toks := by
+  rw [grammar_is_standard.1]; exact parse_ok_iff_std chk toks
+
+theorem parse_ok_iff_derives_std (chk : Bytes → Option Cause) (toks : List Token) (ast : List AST) :
+    parseTokens stdGrammar chk toks = .ok ast ↔ Derives stdGrammar chk toks ast :=
+  parse_ok_iff_derives stdGrammar stdGrammar_ok chk toks ast
+
 /-- both sides hold: `{% if x %}{% comment %}{% endif %}{{|}}{% endcomment %}{% endif %}` is accepted —
     the stray `endif` and the bad object are inside the comment -/
 example : (parseTokens stdGrammar exChk [exIf, exComment, exEndif, exBadObj, exEndcomment, exEndif]).isOk = true := by rfl
@@ -121,8 +130,16 @@ example : wfList stdGrammar exChk [.block exIf [.raw [[97], [98]], .trim true] [
 theorem parse_wf (g : Grammar) (chk : Bytes → Option Cause) (toks : List Token) (ast : List AST)
     (h : parseTokens g chk toks = .ok ast) : wfList g chk ast = true := (derives_of_parse h).wf
 
-example : parseTokens stdGrammar exChk [exIf, exText, exElse, exObj, exEndif] =
-    .ok [.block exIf [.text exText] [(exElse, [.obj exObj])]] := by rfl
+example : wfList stdGrammar exChk [.block exIf [.text exText] [(exElse, [.obj exObj])]] = true :=
+  parse_wf stdGrammar exChk [exIf, exText, exElse, exObj, exEndif] _ (by rfl)
+
+/-- in particular (`WFList g` = `wfList g` with the accept-all checker): every clause of the accepted
+    tree is admitted by its block -/
+theorem parse_WF (g : Grammar) (chk : Bytes → Option Cause) (toks : List Token) (ast : List AST)
+    (h : parseTokens g chk toks = .ok ast) : WFList g ast = true := (derives_of_parse h).weaken.wf
+
+example : WFList stdGrammar [.block exIf [.text exText] [(exElse, [.obj exObj])]] = true :=
+  parse_WF stdGrammar exChk [exIf, exText, exElse, exObj, exEndif] _ (by rfl)
 
 /-- **The tree mirrors the textual nesting**: printing the accepted tree gives back the token list,
     up to what the tree does not keep (`canon`: comment blocks dropped, raw interiors as text tokens
